@@ -1400,3 +1400,83 @@ def _():
     f = ufl.Coefficient(V)
     v = TestFunction(V)
     return f * v * dx(degree=0) + f * v * dx(degree=1) + f * v * ds(degree=2) + f * v * ds(degree=3)
+
+
+# ---- element kinds x facet integral types (macro layout of non-trivial elements) -----------------
+
+def _ek_space(m, kind):
+    cell = m.ufl_cell().cellname
+    gd = GD[cell]
+    P = "Q" if cell in ("quadrilateral", "hexahedron") else "Lagrange"
+    D = "DQ" if cell in ("quadrilateral", "hexahedron") else "DG"
+    E = basix.ufl.element
+    if kind == "TH":
+        el = basix.ufl.mixed_element([E(P, cell, 2, shape=(gd,)), E(P, cell, 1)])
+    elif kind == "P1xDG0":
+        el = basix.ufl.mixed_element([E(P, cell, 1), E(D, cell, 0)])
+    elif kind == "vP1xP1xDG0":
+        el = basix.ufl.mixed_element([E(P, cell, 1, shape=(gd,)), E(P, cell, 1), E(D, cell, 0)])
+    elif kind == "RTxDG0":
+        el = basix.ufl.mixed_element([E("RT", cell, 1), E(D, cell, 0)])
+    elif kind == "RT":
+        el = E("RT", cell, 1)
+    elif kind == "N1curl":
+        el = E("N1curl", cell, 1)
+    elif kind == "sym":
+        el = E(P, cell, 1, shape=(gd, gd), symmetry=True)
+    elif kind == "tensor":
+        el = E(P, cell, 1, shape=(gd, gd))
+    elif kind == "MINI":
+        el = basix.ufl.enriched_element([E("Lagrange", cell, 1), E("Bubble", cell, 3 if cell == "triangle" else 4)])
+    elif kind == "vDG1":
+        el = E(D, cell, 1, shape=(gd,))
+    else:
+        raise ValueError(kind)
+    return ufl.FunctionSpace(m, el)
+
+
+def _ek_form(cell, itype, kind, tmpl):
+    m = mesh(cell)
+    W = _ek_space(m, kind)
+    u, v = TrialFunction(W), TestFunction(W)
+    f = ufl.Coefficient(W)
+    g = ufl.Coefficient(space(m, "DG" if cell not in ("quadrilateral", "hexahedron") else "DQ", 1))
+    if itype == "interior_facet":
+        if tmpl == "bilinear":
+            return inner(u("-"), v("+")) * dS + 2.0 * inner(u("-"), v("-")) * dS
+        if tmpl == "jump":
+            return inner(jump(u), jump(v)) * dS
+        if tmpl == "linear":
+            return g("+") * inner(f("-"), v("-")) * dS + inner(f("+"), v("-")) * dS
+        return g("-") * inner(f("-"), f("+")) * dS
+    meas = ds if itype == "exterior_facet" else dx
+    if tmpl in ("bilinear", "jump"):
+        return inner(u, v) * meas
+    if tmpl == "linear":
+        return g * inner(f, v) * meas
+    return g * inner(f, f) * meas
+
+
+_EKGRID = []
+for _cell, _kinds in [("interval", ["P1xDG0"]), ("triangle", ["TH", "P1xDG0", "vP1xP1xDG0", "RTxDG0", "RT", "N1curl", "sym", "tensor", "MINI", "vDG1"]),
+                      ("quadrilateral", ["TH", "P1xDG0", "sym", "vDG1"]), ("tetrahedron", ["P1xDG0", "RT", "N1curl", "vP1xP1xDG0"])]:
+    for _kind in _kinds:
+        for _it in ["interior_facet", "exterior_facet", "cell"]:
+            for _tm in ["bilinear", "jump", "linear", "functional"]:
+                if _it != "interior_facet" and _tm == "jump":
+                    continue
+                if _cell == "tetrahedron" and _tm in ("bilinear", "jump") and _kind != "P1xDG0":
+                    continue
+                if _kind == "TH" and _tm in ("bilinear", "jump") and _it != "interior_facet":
+                    continue
+                _EKGRID.append((_cell, _kind, _it, _tm))
+
+for _i, (_cell, _kind, _it, _tm) in enumerate(_EKGRID):
+    def _mk(cell=_cell, kind=_kind, it=_it, tm=_tm):
+        return _ek_form(cell, it, kind, tm)
+
+    _tag = "c01" if _it == "cell" else "c02 c05"
+    _q = " q" if (_it == "interior_facet" and (_cell, _kind, _tm) in (("triangle", "TH", "linear"), ("triangle", "P1xDG0", "jump"), ("triangle", "RTxDG0", "functional"),
+                                                                      ("quadrilateral", "P1xDG0", "linear"), ("triangle", "MINI", "jump"), ("interval", "P1xDG0", "bilinear"),
+                                                                      ("triangle", "sym", "linear"))) else ""
+    reg(f"ek_{_cell}_{_kind}_{_it}_{_tm}", f"{_tag} c08 c19 ek{_q}", itypes=(_it,))(_mk)
